@@ -29,6 +29,80 @@ SHAPES = [
 ]
 
 
+# ---------------------------------------------------------------- optional parts of the Learner interface (`score`)
+# `score` is optional: SafeLearner.has_score finds out per learner OBJECT whether it is there, and off-policy evaluators
+# depend on the answer (SequentialCB(learn='off', eval='ips') weighs the logged reward by score/probability when the learner
+# has one and by its own prediction otherwise; RejectionCB refuses a learner without one = that triple fails, all others are
+# unaffected).  Shapes may therefore say which learners lack `score` ("noscore"), which are wrapped in a user class that forwards
+# every method to the learner inside ("fwd": objects of ONE class then differ in what they support), and which evaluators are
+# the off-policy SequentialCB ("ips") / RejectionCB ("rej", explib).  The triples that fail follow from the rule, not from a list.
+class NoScore:
+    """A learner without the optional `score`: everything else is the inner learner's."""
+    def __init__(self, inner): self.inner = inner
+    @property
+    def params(self): return dict(self.inner.params, score=False)
+    def predict(self, *a, **k): return self.inner.predict(*a, **k)
+    def learn(self, *a, **k): return self.inner.learn(*a, **k)
+    def finish(self): self.inner.finish()
+
+
+class Fwd:
+    """A user wrapper: every method, `score` included, is forwarded (whether `score` works depends on the object inside)."""
+    def __init__(self, inner): self.inner = inner
+    @property
+    def params(self): return dict(self.inner.params, wrapped=True)
+    def score(self, *a, **k): return self.inner.score(*a, **k)
+    def predict(self, *a, **k): return self.inner.predict(*a, **k)
+    def learn(self, *a, **k): return self.inner.learn(*a, **k)
+    def finish(self): self.inner.finish()
+
+
+class VOff:
+    """The built-in SequentialCB evaluating off-policy on logged data, behind explib's side channel."""
+    def __init__(self, vid, side=None, learn="off"):
+        from coba.evaluators import SequentialCB
+        self.vid = vid; self.side = side; self.learn = learn
+        self.inner = SequentialCB(record=["reward"], learn=learn, eval="ips")     # no action / probability asked for: a learner with `score` is scored, not asked to predict
+    @property
+    def params(self): return {"vid": self.vid, "kind": "offpolicy", "learn": self.learn}
+    def evaluate(self, environment, learner):
+        if self.side:
+            with open(self.side, "a") as f: f.write(json.dumps([environment.params.get("eid"), learner.params.get("lid"), self.vid]) + "\n")
+        for row in self.inner.evaluate(environment, learner):
+            row["vid"] = self.vid
+            yield row
+
+
+def shape_fail(shape):
+    """The failing triples of a shape: the listed ones, and (rule) every RejectionCB evaluation of a learner without `score`."""
+    ns = set(shape.get("noscore", [])); rej = set(shape.get("rej", []))
+    return [tuple(t) for t in shape["fail"]] + [tuple(t) for t in shape["tr"] if t[1] in ns and t[2] in rej and tuple(t) not in [tuple(f) for f in shape["fail"]]]
+
+
+def build(shape, side=None, variant=0, **kw):
+    """explib.build + the learner / evaluator kinds above (object identity = the shape's ids, as in explib)."""
+    triples = explib.build(shape, side=side, variant=variant, **kw)
+    ns = set(shape.get("noscore", [])); fwd = set(shape.get("fwd", [])); ips = {int(k): v for k, v in shape.get("ips", {}).items()}
+    if not (ns or fwd or ips): return triples
+    L = {}; V = {}
+    for (e, l, v), (eo, lo, vo) in zip(shape["tr"], triples):
+        if l not in L:
+            x = NoScore(lo) if l in ns else lo
+            L[l] = Fwd(x) if l in fwd else x
+        if v not in V: V[v] = VOff(v, side=side, learn=ips[v]) if v in ips else vo
+    return [(eo, L[l], V[v]) for (e, l, v), (eo, lo, vo) in zip(shape["tr"], triples)]
+
+
+# learners of one (wrapper) class that differ in `score`, in both orders, under the off-policy SequentialCB and RejectionCB;
+# a learner without `score` that is not wrapped next to one with; learn='ips' next to learn='off'
+_G = [dict(p=2, mc=0, mt=0), dict(p=1, mc=1, mt=0), dict(p=2, mc=1, mt=1), dict(p=1, mc=2, mt=2)]
+SCORE_SHAPES = [
+    dict(tr=[(0, 0, 0), (0, 1, 0), (0, 0, 1), (0, 1, 1)], ch=[0], fail=[], noscore=[0], fwd=[0, 1], ips={0: "off"}, rej=[1], logged=[0], n_int=30, grid=_G),
+    dict(tr=[(0, 0, 0), (0, 1, 0), (1, 0, 1), (1, 1, 1)], ch=[0, 0], fail=[], noscore=[1], fwd=[0, 1], ips={0: "off"}, rej=[1], logged=[0, 1], nact={1: 2}, n_int=30, grid=_G),
+    dict(tr=[(0, 0, 0), (0, 1, 0), (0, 2, 0), (0, 2, 1)], ch=[1], fail=[], noscore=[0, 2], fwd=[1, 2], ips={0: "off", 1: "ips"}, logged=[0], n_int=30, grid=_G),
+]
+
+
 def spec_runs(ctx):
     sub = {"Shapes <- QuickShapes": "Shapes <- %s" % ctx.pick("C01QuickShapes", "ThoroughShapes"),
            "Cfgs <- QuickCfgs": "Cfgs <- ThoroughCfgs", "MaxCrash = 2": "MaxCrash = 0"}
@@ -97,7 +171,7 @@ def run_cfg(shape, cfg, policy, d, variant=0):
     open(side, "w").close()
     def go():
         explib.quiet_ctx()
-        return Experiment(explib.build(shape, side=side, variant=variant)).run(f, quiet=True, processes=cfg["p"], maxchunksperchild=cfg["mc"], maxtasksperchunk=cfg["mt"], seed=shape.get("seed", 1))
+        return Experiment(build(shape, side=side, variant=variant)).run(f, quiet=True, processes=cfg["p"], maxchunksperchild=cfg["mc"], maxtasksperchunk=cfg["mt"], seed=shape.get("seed", 1))
     if cfg["p"] == 1 and cfg["mc"] == 0:
         out = {"value": go(), "verdict": "ok"}
     else:
@@ -114,11 +188,12 @@ REAL = r"""
 import sys, json
 sys.path.insert(0, %r)
 from harness import explib
+from harness.drivers.c01 import build
 from coba.experiments import Experiment
 if __name__ == '__main__':
     shape, cfg, f, side, variant = json.loads(sys.argv[1])
     explib.quiet_ctx()
-    res = Experiment(explib.build(shape, side=side, variant=variant)).run(f, quiet=True, processes=cfg['p'], maxchunksperchild=cfg['mc'], maxtasksperchunk=cfg['mt'], seed=shape.get('seed', 1))
+    res = Experiment(build(shape, side=side, variant=variant)).run(f, quiet=True, processes=cfg['p'], maxchunksperchild=cfg['mc'], maxtasksperchunk=cfg['mt'], seed=shape.get('seed', 1))
     print(json.dumps(explib.result_digest(res)))
 """
 
@@ -189,12 +264,13 @@ def run(ctx):
     grid = [dict(p=p, mc=mc, mt=mt) for p in ctx.pick((1, 2), (1, 2, 3)) for mc in (0, 1, 2) for mt in (0, 1, 2)]
     nsched = ctx.pick(3, 4)       # schedules per (shape, variant, configuration); thorough: 8 shapes x 2 variants x 26 configurations x 4 = 1.7 k runs (6 and more did not finish their trace validation within an hour on a busy machine)
     traces = []; meta = []
-    shapes = SHAPES[:ctx.pick(4, 6)] + explib.BUILTIN_SHAPES
+    shapes = SHAPES[:ctx.pick(4, 6)] + explib.BUILTIN_SHAPES + SCORE_SHAPES
+    nscore = len(SCORE_SHAPES)
     for si, shape in enumerate(shapes):
         for variant in range(ctx.pick(1, 2)):
             ref, run0, verdict = run_cfg(shape, dict(p=1, mc=0, mt=0), None, d, variant)
             if verdict != "ok": raise RuntimeError("reference run failed: %s" % verdict)
-            tshape = dict(tr=[list(t) for t in shape["tr"]], ch=shape["ch"], fail=[list(t) for t in shape["fail"]])
+            tshape = dict(tr=[list(t) for t in shape["tr"]], ch=shape["ch"], fail=[list(t) for t in shape_fail(shape)])
             for cfg in shape.get("grid", grid):
                 n = 1 if (cfg["p"] == 1 and cfg["mc"] == 0) else nsched
                 for k in range(n):
@@ -226,15 +302,20 @@ def run(ctx):
     # ---- real spawn ----
     script = os.path.join(ctx.scratch, "real_exp.py")
     open(script, "w").write(REAL % os.path.dirname(os.path.dirname(os.path.dirname(os.path.abspath(__file__)))))
-    real = ctx.pick([(0, dict(p=2, mc=1, mt=1)), (2, dict(p=2, mc=0, mt=0)), (len(shapes) - 2, dict(p=2, mc=1, mt=1))],
+    real = ctx.pick([(0, dict(p=2, mc=1, mt=1)), (2, dict(p=2, mc=0, mt=0)), (len(shapes) - nscore - 2, dict(p=2, mc=1, mt=1))],
                     [(si, c) for si in range(len(shapes)) for c in (dict(p=2, mc=1, mt=1), dict(p=2, mc=0, mt=0), dict(p=3, mc=2, mt=2), dict(p=1, mc=1, mt=0))])
     # real processes only (each spawned interpreter has its own string-hash salt; the virtual layer has one): an environment whose
     # feature names are not ASCII.  Compared between in-process and real workers only - whether such names are accepted is not C01's subject
     shapes = shapes + [dict(tr=[(0, 0, 2), (1, 0, 2), (1, 1, 2)], ch=[0, 0], fail=[], nonascii=[1], n_int=12)]      # evaluator 2 records the context
     real = real + [(len(shapes) - 1, dict(p=2, mc=1, mt=1))]
+    # what a process remembers from one evaluation to the next (module / class level state of the library) is shared by the virtual
+    # processes but not by real ones: the shapes whose learners differ in `score`, on workers that are replaced after every chunk
+    # (deterministic), after every second chunk and never
+    ns0 = len(shapes) - 1 - nscore
+    if ctx.quick: real = real + [(ns0, dict(p=1, mc=1, mt=0)), (ns0 + 1, dict(p=2, mc=1, mt=1)), (ns0 + 2, dict(p=1, mc=1, mt=1)), (ns0 + 1, dict(p=1, mc=2, mt=0))]
     for si, cfg in real:
         shape = shapes[si]
-        ref = explib.result_digest(explib.run_inprocess(explib.build(shape), seed=shape.get("seed", 1)))
+        ref = explib.result_digest(explib.run_inprocess(build(shape), seed=shape.get("seed", 1)))
         f = os.path.join(d, "real.log"); side = os.path.join(d, "real_side.txt")
         for x in (f, side):
             if os.path.exists(x): os.remove(x)
